@@ -328,6 +328,12 @@ def vincdir_utm(zone1, east1, north1, grid1to2, grid_dist,
         lsf_previous = lsf
         lat2, lon2, az2to1 = vincdir(lat1, lon1, az1to2,
                                      grid_dist / lsf, ellipsoid)
+        # A line across the 180 degree meridian (zones 60 and 1): bring the
+        # longitude back into the range geo2grid accepts
+        if lon2 > 180:
+            lon2 -= 360
+        elif lon2 < -180:
+            lon2 += 360
         (hemisphere2, zone2, east2,
          north2, psf2, gridconv2) = geo2grid(lat2, lon2,
                                              zone1, ellipsoid)
